@@ -225,7 +225,7 @@ var scriptArchetypes = map[string]func(r *rand.Rand) PodScript{
 		return PodScript{ScheduleMs: int64(50 + r.Intn(500)), RunMs: int64(100 + r.Intn(1500)), FinishMs: int64(300 + r.Intn(4000)), Outcome: "oom", TermMs: 500}
 	},
 	"deadline": func(r *rand.Rand) PodScript {
-		return PodScript{ScheduleMs: int64(50 + r.Intn(500)), RunMs: int64(100 + r.Intn(1500)), FinishMs: int64(300 + r.Intn(4000)), Outcome: "deadline", TermMs: 500}
+		return PodScript{ScheduleMs: int64(50 + r.Intn(500)), RunMs: int64(100 + r.Intn(1500)), FinishMs: int64(300 + r.Intn(4000)), Outcome: "fail", TermMs: 500}
 	},
 	"unschedulable": func(r *rand.Rand) PodScript {
 		return PodScript{ScheduleMs: -1, TermMs: 200, Outcome: "succeed"}
